@@ -1,0 +1,36 @@
+//go:build verif
+
+// Package verifhook holds named yield points used by the external verification harness. With the
+// "verif" build tag the calls are forwarded to Handler (when set).
+package verifhook
+
+// HandlerI is what the verification harness installs.
+type HandlerI interface {
+	Point(name string)
+	Spin(name string)
+	Acquire(name string, mu interface{})
+}
+
+// Handler receives every hook call when non-nil.
+var Handler HandlerI //nolint:gochecknoglobals
+
+// Point is an ordinary scheduling point.
+func Point(n string) {
+	if h := Handler; h != nil {
+		h.Point(n)
+	}
+}
+
+// Spin marks the head of a polling loop.
+func Spin(n string) {
+	if h := Handler; h != nil {
+		h.Spin(n)
+	}
+}
+
+// Acquire is called immediately before Lock/RLock on the given mutex.
+func Acquire(n string, mu interface{}) {
+	if h := Handler; h != nil {
+		h.Acquire(n, mu)
+	}
+}
